@@ -19,10 +19,13 @@ RULE = (
 )
 
 
+@core.guard
 def judge(case):
     from pyrtcm import RTCMMessage, RTCMReader  # pylint: disable=import-outside-toplevel
 
     out = core.Outcome()
+    if case.get("reader"):
+        return _judge_reader_case(case)
     payload = case["payload"]
     try:
         msg = RTCMMessage(payload=payload)
@@ -116,6 +119,90 @@ def judge(case):
     return out
 
 
+def _judge_reader_case(case):
+    """Replay of one recorded reader execution."""
+    from mc import readerharness as H  # pylint: disable=import-outside-toplevel
+
+    out = core.Outcome()
+    source, validate = case["source"], case["validate"]
+    rec = H.execute(source, case["choices"], validate=validate, quitonerror=0, parsed=True,
+                    returns=bytearray if case.get("returns") == "bytearray" else bytes)
+    for ev in rec["events"]:
+        if ev[0] == "foreign":
+            out.bad("reader-breaks", f"{case['name']}: read() raised {ev[1]}: {ev[3]}")
+    H.check_pairs(source, rec["events"], out, validate=validate)
+    for ev in rec["events"]:
+        if ev[0] == "pair" and ev[4] is not None:
+            raw = bytes(ev[3])
+            want = raw[:-3] + pinned.crc24q_table(raw[:-3]).to_bytes(3, "big")
+            if ev[4].serialize() != want:
+                out.bad("reader-message-does-not-serialise-to-its-frame", f"{case['name']}")
+    return out
+
+
+def reader_roundtrip(item):
+    """
+    Messages as a READER hands them out -- also right after a read that was cut short (a serial
+    port timing out inside a frame), with validation on and off: the raw bytes are the bytes of
+    the stream, and serialising the parsed message reproduces them (with the right checksum).
+    Every placement of <= 1 short/empty read over every stream of <= 2 items.
+    """
+    from mc import readerharness as H  # pylint: disable=import-outside-toplevel
+    from mc.explore import explore  # pylint: disable=import-outside-toplevel
+
+    name, source = item
+    st = core.Stats()
+    for validate, returns in ((0, bytes), (1, bytes), (1, bytearray)):
+        def body(ch, validate=validate, returns=returns):
+            out = core.Outcome()
+            rec = H.execute(source, (), validate=validate, quitonerror=0, parsed=True, chooser=ch,
+                            returns=returns)
+            for ev in rec["events"]:
+                if ev[0] == "foreign":
+                    out.bad("reader-breaks", f"{name}: read() raised {ev[1]}: {ev[3]} over a stream "
+                            f"returning {returns.__name__}")
+            H.check_pairs(source, rec["events"], out, validate=validate)
+            for ev in rec["events"]:
+                if ev[0] != "pair" or ev[4] is None:
+                    continue
+                raw, msg = bytes(ev[3]), ev[4]
+                want = raw[:-3] + pinned.crc24q_table(raw[:-3]).to_bytes(3, "big")
+                try:
+                    ser = msg.serialize()
+                except Exception as err:  # pylint: disable=broad-except
+                    out.bad("serialize-raises", f"{name}: {type(err).__name__}: {err}")
+                    continue
+                if ser != want:
+                    out.bad("reader-message-does-not-serialise-to-its-frame",
+                            f"{name} validate={validate}: reader returned raw {raw[:8].hex()}.. ({len(raw)} B) "
+                            f"whose parsed message serialises to {ser[:8].hex()}.. ({len(ser)} B)")
+            out.nontrivial = any(e[0] == "pair" for e in rec["events"])
+            out.obs = core.h64(repr((name, validate, [(e[0], e[1]) for e in rec["events"]])))
+            return out
+
+        for choices, _devs, out in explore(body, bound=1):
+            st.add({"name": name, "reader": True, "source": source, "validate": validate,
+                    "choices": list(choices), "returns": returns.__name__}, out)
+    return st
+
+
+def reader_items(tier):
+    import itertools  # pylint: disable=import-outside-toplevel
+
+    from mc import items  # pylint: disable=import-outside-toplevel
+
+    tbl = items.by_name()
+    alpha = [tbl[n] for n in ("F2", "F19", "Fmsm", "Fnested", "Fsync", "nmeaG", "D3", "dmgcrc", "F0",
+                              "Fcrc0d0a", "D303FF")]
+    seqs = []
+    for d in (1, 2) if tier == "quick" else (1, 2, 3):
+        for combo in itertools.product(alpha, repeat=d):
+            if d == 3 and sum(len(i["data"]) for i in combo) > 60:
+                continue
+            seqs.append(("+".join(i["name"] for i in combo), b"".join(i["data"] for i in combo)))
+    return seqs
+
+
 def steered():
     """Known-type payloads at the length boundaries."""
     out = []
@@ -200,6 +287,11 @@ def run(tier, seed, t0):
     allc = list(cases(tier))
     core.check_deterministic(judge, allc[100])
     st = core.pmap(_work, core.chunks(allc, 400))
+    ri = reader_items(tier)
+    st2 = core.pmap(reader_roundtrip, ri)
+    st.merge(st2)
+    st.extra["reader_streams"] = len(ri)
+    st.extra["reader_executions"] = st2.evaluations
     st.extra["steered_lengths"] = sorted({len(c["payload"]) for c in steered()})
     st.extra["steered_lengths"] = len(st.extra["steered_lengths"])
     return core.finish(
